@@ -111,7 +111,22 @@ func handle(f []string) string {
 			if s1 != codecx.FmtMsg(f[1], &after) || !bytes.Equal(before.Payload, after.Payload) {
 				alias = "changed"
 			}
-			return fmt.Sprintf("pdec %d ok %s alias=%s", n, s1, alias)
+			// re-encode from the SAME pooled message (a proxy forwarding what it received): the decoded message must not
+			// change under its own re-encoding, and the re-encoding must decode to it
+			out, e := dst.MarshalWithEncoder(c)
+			if e != nil {
+				return fmt.Sprintf("pdec %d ok %s alias=%s | remar %s - same=-", n, s1, alias, codecx.ErrKind(e))
+			}
+			reenc := append([]byte(nil), out...)
+			again, e := codecx.Snapshot(dst)
+			if e != nil {
+				return "pdec snapshot-failed"
+			}
+			same := "ok"
+			if s1 != codecx.FmtMsg(f[1], &again) {
+				same = "changed"
+			}
+			return fmt.Sprintf("pdec %d ok %s alias=%s | remar ok %s same=%s", n, s1, alias, lp.Hex(reenc), same)
 		})
 	}
 	return "bad-op"
